@@ -298,6 +298,14 @@ class Gen:
                     kws[r.randrange(len(kws))][1] = list(v)
                 if args and r.random() < 0.3:
                     args.append(list(v))
+                # the SAME node under two keyword names with other keywords in between, or positionally around another
+                # argument (in_edges groups parallel edges by predecessor: only the edge keys carry the order)
+                if len(kws) >= 2 and r.random() < 0.5:
+                    kws[0][1] = list(v)
+                    kws[-1][1] = list(v)
+                if len(args) >= 3 and r.random() < 0.5:
+                    args[0] = list(v)
+                    args[-1] = list(v)
             self.new_var(("other",))
             return ["call", f, args, kws]
         if x < 0.74:
@@ -831,6 +839,8 @@ def real_argnodes(edges, c, do_copy):
                                    ",".join("%s:%d" % (n, ids[id(a)]) for n, a in kwargs.items())), order
     except (IndexError, TypeError):
         return "raise", order
+    except Exception as e:      # any other exception type is reported as a difference, not as a harness failure
+        return "raise-" + type(e).__name__, order
 
 
 def explore_small(ctx, n_edges_cases):
@@ -891,6 +901,10 @@ FIXED = [
                ["call", 0, [], [["zz", ["n", 2]], ["k1", ["n", 1]], ["a", ["n", 0]]]],
                ["call", 1, [["n", 0]], [["k1", ["n", 1]], ["b", ["n", 0]]]]],
      "out": ["T", 1, [["n", 3], ["n", 4]]]},
+    # one node under the first and the last keyword name (and positionally first and last), another node in between
+    {"stmts": [["call", 0, [], []], ["call", 1, [], []],
+               ["call", 2, [["n", 0], ["n", 1], ["n", 0]], [["c", ["n", 0]], ["a", ["n", 1]], ["b", ["n", 0]]]]],
+     "out": ["n", 2]},
     # nodes as dict keys evaluating to equal values (first key object stays, last value wins); set collapsing
     {"stmts": [["lit", ["T", 1, [["a", 1]]]], ["lit", ["T", 2, [["a", 1]]]],
                ["gather", ["D", 3, [[["n", 0], ["a", 2]], [["n", 1], ["a", 3]]]]],
